@@ -27,7 +27,8 @@ def run(ctx):
                  'instruction reaches the single ShiftBus40; ShiftBus40 keeps the original sign for saturation', floor=8)
     F = ctx.F['functions']
     # ---- M1
-    RD_OK = {'ProductToBus40', 'ProductToBus32_NoShift', 'DoMultiplication', 'RegFromBus16'}
+    # mov2 is the documented no-shift store (it reads p through ProductToBus32_NoShift, or directly if that one-liner is inlined)
+    RD_OK = {'ProductToBus40', 'ProductToBus32_NoShift', 'DoMultiplication', 'RegFromBus16', 'mov2'}
     WR_OK = {'DoMultiplication', 'ProductFromBus32', 'RegFromBus16'}
     n = 0
     for f in interp_functions(ctx):
@@ -47,7 +48,7 @@ def run(ctx):
     ctx.require(n >= 8, 'product register accesses: %d' % n)
     users = [f['name'] for f in interp_functions(ctx) for c in walk(f['body']) if c.get('k') == 'call' and c.get('name') == 'ProductToBus32_NoShift']
     ctx.inst(M1)
-    if sorted(set(users)) != ['mov2']:
+    if sorted(set(users)) not in (['mov2'], []) or (not users and 'Teakra::Interpreter::ProductToBus32_NoShift(Px) const' in F):
         ctx.report(M1, ('src/interpreter.h', 'Teakra::Interpreter', 0), 0, 'ProductToBus32_NoShift users', 'the unshifted product is read by %s, expected only the mov2 store forms' % sorted(set(users)))
     # ---- M2
     n2 = 0
